@@ -128,6 +128,26 @@ def retime(lines: list[tuple[str, str]], start: _dt.datetime | None = None, max_
     return out
 
 
+def disorder(rng: Random, lines: list[tuple[str, str]], meta: dict[str, Any]) -> list[tuple[str, str]]:
+    """A log whose lines are not in timestamp order (two logs appended, a merge of several receivers): blocks of
+    lines are moved, each line keeping its timestamp."""
+    out = list(lines)
+    moves = 0
+    for _ in range(rng.choice((1, 2, 4))):
+        if len(out) < 4:
+            break
+        a = rng.randrange(len(out) - 1)
+        b = min(len(out), a + rng.choice((1, 1, 2, 5, 20)))
+        block = out[a:b]
+        del out[a:b]
+        at = rng.randrange(len(out) + 1)
+        out[at:at] = block
+        moves += 1
+    meta["ops"] = list(meta.get("ops", [])) + ["disorder"]
+    meta["disordered_blocks"] = moves
+    return out
+
+
 class History:
     def __init__(self, lines: list[tuple[str, str]], meta: dict[str, Any]):
         self.lines, self.meta = lines, meta
